@@ -114,6 +114,9 @@ PROBE_LABELS = ("a", "b", "c", "n", "x")
 ID_PROBES = ("id7", "id9", 0, 1, 2, 4242, "a", "n", "x", "key_a", "key_b", "key_n", -1)
 
 
+RAW_DATA_PROBES = ("id7", "id9", "key_a", 1, 0)
+
+
 def _variants(flavour, lab, d):
     """Other objects that denote the same (or deliberately not the same) data."""
     out = []
@@ -150,6 +153,8 @@ def make_probes(flavour, mk, labels, variants=True):
         data.append((f"data {lab!r}", d))
         if variants:
             data += _variants(flavour, lab, d)
+    # objects that are *ids* of nodes, used as data: found only if calc_data_id(obj) is a node's id
+    data += [(f"raw object {x!r} as data", x) for x in RAW_DATA_PROBES]
     return data
 
 
@@ -628,7 +633,7 @@ def run(prop: str, tier: str, only=None) -> Result:
         f"other flavours: forests <= {2 if quick else 3} nodes x {{a,b}}, explicit-id trees <= {1 if quick else 2} nodes; "
         f"every operation of ops.enum_ops groups {GROUPS} (accepted or refused), same probes as the static part, also on the second tree of cross-tree operations"
     )
-    n_hist, length = (1500, 6) if quick else (30000, 10)
+    n_hist, length = (1500, 6) if quick else (20000, 8)
     base = seed() * 1_000_003 + 2
     h = parallel(_hist_chunk, [(base + i,) for i in range(n_hist)], prop, length, prop=prop)
     h.exhaustive = False
